@@ -29,6 +29,7 @@ type ConnRec struct {
 	closed bool // the endpoint side closed / saw EOF
 	c      *net.TCPConn
 	stop   chan struct{}
+	At     time.Time // when the endpoint accepted the connection
 }
 
 func (r *ConnRec) Data() []byte {
@@ -196,7 +197,7 @@ func (e *Endpoint) acceptLoop(ln *net.TCPListener) {
 		if err != nil {
 			return
 		}
-		r := &ConnRec{c: c, stop: make(chan struct{})}
+		r := &ConnRec{c: c, stop: make(chan struct{}), At: time.Now()}
 		e.mu.Lock()
 		e.conns = append(e.conns, r)
 		e.mu.Unlock()
